@@ -14,7 +14,7 @@ from .. import harness, rt, zoo
 from ..harness import canon_outcome, run_op
 
 LEVEL = "exploration"
-RUNS = {"quick": 5000, "thorough": 90000}
+RUNS = {"quick": 3000, "thorough": 60000}
 WALL = {"quick": 150, "thorough": 1500}
 RULE = (
     "one run = one seeded history (2-12 ops, 1-3 parsers, optional world edits and injected faults) executed on reused "
